@@ -312,6 +312,17 @@ class DirectoryNode:
         self._nodemaker = nodemaker
         self._uploader = uploader
 
+    def __hash__(self):
+        return hash((self.__class__, self._uri))
+
+    def __eq__(self, them):
+        if type(self) != type(them):
+            return False
+        return self._uri == them._uri
+
+    def __ne__(self, them):
+        return not (self == them)
+
     def __repr__(self):
         return "<%s %s-%s %s>" % (self.__class__.__name__,
                                   self.is_readonly() and "RO" or "RW",
